@@ -19,7 +19,8 @@ LEVEL_TEXT = (
     "case of the final numbering is xor-with-constant-1 -> Not(other operand), handled for both operand positions, AND has none, and "
     "the constants are materialised as Xor(0,0) and Not(first input) before all other gates; (O3) nothing but push_gate and "
     "get_cached branches on the cache switch, and nothing but get_cached / push_gate touches the cache - so switching "
-    "de-duplication off cannot change which gate requests are made, only whether a request is answered from the cache.")
+    "de-duplication off cannot change which gate requests are made, only whether a request is answered from the cache; (O4) in the "
+    "xor-cancellation rewrites the operand tested for cancellation is never the one returned (a structural lint for one class of slips).")
 LEVEL_NOTE = "Trusted: rustc MIR; that an identical request answered from the cache denotes the same wire function (hash-consing) is the cache's definition."
 EXPLANATION = "Functions analysed: CircuitBuilder::{remove_unused_gates, build} and their closures; every switch terminator of the crate for O3."
 NOT_DECIDED = "function preservation of the algebraic rewrites, of constant folding and of the sweep for all request sequences"
